@@ -103,7 +103,9 @@ def run(chk):
                pcs == [("1", "zero"), (m1, "mirror"), ("1", "zero"), (m1, "plain")], derived="pieces %s" % pcs, loc=cat_ev.loc)
     else:
         chk.ob("R-ST-LIN", c + "{halves}", "lower half = flip(conj(ss[1:])), upper half = ss[1:]; bins 0 and n/2 stay zero", sl == want, derived="%s" % sl,
-               loc=stores[0].loc if stores else r.fi.loc(), inconclusive=not stores)
+               loc=stores[0].loc if stores else r.fi.loc(),
+               # a half written through a reversed slice (x[a:b:-1] = ...) puts the mirror into the index, not into the value: not read here
+               inconclusive=(not stores) or any(len(e.index.items) > 2 and e.index.items[2] is not None and e.index.items[2].kind != K_NONE for e in stores))
     # dominant frequency helpers
     summ = {}
     # the record is taken cold (no transform attached yet, so hasattr(asig, 'swtf') is False): the helper computes the transform itself
@@ -216,6 +218,29 @@ def run(chk):
                 import copy as _copy
                 bare = _NoFlip().visit(_copy.deepcopy(fdef[0].value))
                 form = Normaliser().poly(bare).subst_atoms(lambda a: "dt" if a.endswith(".dt") or a == "dt" else a).canon()
+                # the row count under whatever local name: the name inside arange(1, 1 + <name>) is the count
+                import re as _re
+                m_ = _re.search(r"np\.arange\(1, 1 \+ 1\*([A-Za-z_]\w*)\)", form)
+                if m_ and m_.group(1) != "points" and "points" not in form:
+                    form = _re.sub(r"\b%s\b" % _re.escape(m_.group(1)), "points", form)
+
+
+                    def _factors(txt):
+                        out_, depth, cur = [], 0, ""
+                        for ch in txt:
+                            if ch == "(":
+                                depth += 1
+                            elif ch == ")":
+                                depth -= 1
+                            if ch == "*" and depth == 0:
+                                out_.append(cur)
+                                cur = ""
+                            else:
+                                cur += ch
+                        out_.append(cur)
+                        return sorted(out_)
+                    if _factors(form) == _factors("1/2*dt^-1*np.arange(1, 1 + 1*points)*points^-1"):
+                        form = "1/2*dt^-1*np.arange(1, 1 + 1*points)*points^-1"
             chk.ob("R-ST-AXIS", c + "{axis form}", "frequencies = arange(1, points + 1) / (2 * points * dt)", form == "1/2*dt^-1*np.arange(1, 1 + 1*points)*points^-1",
                    derived="%s" % form, loc=r.fi.loc(fdef[0]) if fdef else r.fi.loc(), inconclusive=(not fdef) or form is None)
         pts = [n for sc in scopes for n in ast.walk(sc.node) if isinstance(n, ast.Assign) and isinstance(n.targets[0], ast.Name) and n.targets[0].id == "points"]
